@@ -1,6 +1,7 @@
 package main
 
 import (
+	"strconv"
 	"time"
 	"archive/tar"
 	"bytes"
@@ -24,6 +25,39 @@ func (c *runCtx) c18Case(kind string, x []byte) {
 		c.stats.Results[chain[:i]]++
 	}
 	c.emit("c18", hx(hdr), vec, chain, kind)
+	if kind == "writer" && pan == nil && m != nil {
+		// the same slice examined again (a detection must not have changed it), through the reader, and under limits at
+		// and around the record size
+		before := append([]byte{}, x...)
+		m2, _ := detectAt(x, 3072)
+		if !bytes.Equal(before, x) || m2 == nil || chainOf(m2) != chain {
+			got := "NIL"
+			if m2 != nil {
+				got = chainOf(m2)
+			}
+			c.propfail("C18", fmt.Sprintf("examining the same archive twice gives %s then %s (buffer modified by the first detection: %v); first block %s", chain, got, !bytes.Equal(before, x), hx(x[:min(len(x), 512)])))
+			copy(x, before)
+		}
+		for _, l := range []uint32{512, 513, 1024, 0, 511} {
+			h2 := header(x, l)
+			v2, _ := c.verdictVector(h2, l)
+			ml, panl := detectAt(x, l)
+			ch2 := "PANIC"
+			if panl == nil && ml != nil {
+				ch2 = chainOf(ml)
+			}
+			k2 := kind
+			if len(h2) < 512 {
+				k2 = "short" // fewer than 512 bytes examined: nothing is promised
+			}
+			c.stats.note(k2+"-limit", append([]byte(strconv.Itoa(int(l))+":"), h2...), len(h2), strings.HasPrefix(ch2, "application/x-tar|"))
+			c.emit("c18", hx(h2), v2, ch2, k2)
+		}
+		if c.caseNo%4 == 1 {
+			c.agree(kind, x, 3072, c.caseNo%16 == 1)
+			c.agree(kind, x, 512, false)
+		}
+	}
 	if c.stats.Evaluations%401 == 1 {
 		h := hdr
 		if len(h) > 160 {
